@@ -102,33 +102,46 @@ Theorem c17_methods :
 Proof. split; [reflexivity|]. intros m; destruct m; cbn; tauto. Qed.
 
 (* ---- a whole process (Macro.run_process): the holder is set at most once, by whoever offers
-   first ([PSet]: the observed client, [PSetOther]: another one); what is observed of each
-   invocation is what the OBSERVED client's sink and handler saw, whether it panicked, and its
-   evaluation log ---- *)
+   first ([PSet]: the observed client, [PSetOther]: another one); [PGet] / [PIsSet] are
+   get_global_default().is_ok() / is_global_default_set(); what is observed of an invocation is
+   what the OBSERVED client's sink and handler saw, whether it panicked, and its evaluation log;
+   of a read, what it reported ([po_flag]) ---- *)
 
-(* before any client is set every invocation panics, having evaluated, emitted and reported nothing *)
+(* before any client is set every invocation panics, having evaluated, emitted and reported nothing,
+   and every read of the holder says "not set" *)
 Theorem c17_process_unset : forall cfg other steps script,
-  Forall (fun st => is_invoke st = true) steps ->
-  Forall (fun o => po_panicked o = true /\ po_emitted o = [] /\ po_handled o = [] /\ po_evals o = [])
+  Forall (fun st => is_offer st = false) steps ->
+  Forall (fun o => match po_flag o with
+                   | Some b => b = false
+                   | None => po_panicked o = true /\ po_emitted o = [] /\ po_handled o = [] /\ po_evals o = []
+                   end)
          (run_process cfg other None script steps).
 Proof. exact process_unset. Qed.
 
-(* once a client is set, later offers change nothing for any later invocation *)
+(* once a client is set, later offers change nothing for anything that follows *)
 Theorem c17_process_set_once : forall cfg other b c steps script,
   run_process cfg other (Some (b, c)) script steps =
-  run_process cfg other (Some (b, c)) script (filter is_invoke steps).
+  run_process cfg other (Some (b, c)) script (filter (fun st => negb (is_offer st)) steps).
 Proof. exact process_set_once. Qed.
+
+(* ... and every read of the holder says "set" *)
+Theorem c17_process_reads : forall cfg other b c steps script,
+  Forall (fun o => match po_flag o with Some f => f = true | None => True end)
+         (run_process cfg other (Some (b, c)) script steps).
+Proof. exact process_reads_set. Qed.
 
 (* with the observed client in the holder, the invocations of the process are, one after the
    other, the tagged quiet sends on that client (same strings to its sink, same errors to its
-   handler, the sink's answers consumed in order); none panics *)
+   handler, the sink's answers consumed in order) - whatever is offered or read in between; none
+   panics *)
 Theorem c17_process_mine : forall cfg other steps script,
   Forall2 (fun o r => po_panicked o = false /\
                       match r with
                       | Some x => po_stuck o = false /\ po_emitted o = o_emitted x /\ po_handled o = o_handled x
                       | None => po_stuck o = true
                       end)
-          (run_process cfg other (Some (true, cfg)) script steps)
+          (filter (fun o => match po_flag o with None => true | Some _ => false end)
+                  (run_process cfg other (Some (true, cfg)) script steps))
           (reference_sends cfg (invocations steps) script).
 Proof. exact process_mine. Qed.
 
